@@ -35,6 +35,7 @@ type PropFunc struct {
 	Pkg   string   `json:"pkg"`
 	Name  string   `json:"name"`
 	Kinds []string `json:"kinds"`
+	Match []string `json:"match"` // if set: only obligations whose name matches one of these regexps
 }
 
 type BoundedStandin struct {
@@ -141,6 +142,7 @@ func cmdCheck(args []string) {
 		propKinds[k] = true
 	}
 	funcKinds := map[string]map[string]bool{}
+	funcMatch := map[string][]*regexp.Regexp{}
 	var missingFuncs []string
 	for _, pf := range spec.Functions {
 		fn := e.FindFunc(repoPrefix+"/"+pf.Pkg, pf.Name)
@@ -150,6 +152,11 @@ func cmdCheck(args []string) {
 		}
 		r := e.VerifyFunction(fn)
 		results = append(results, r)
+		for _, pat := range pf.Match {
+			if re, err := regexp.Compile(pat); err == nil {
+				funcMatch[r.Fn] = append(funcMatch[r.Fn], re)
+			}
+		}
 		if len(pf.Kinds) > 0 {
 			m := map[string]bool{}
 			for _, k := range pf.Kinds {
@@ -161,6 +168,17 @@ func cmdCheck(args []string) {
 	inProp := func(ob *Obligation) bool {
 		if ob.Kind == "cover" {
 			return true
+		}
+		if res, ok := funcMatch[ob.Fn]; ok {
+			hit := false
+			for _, re := range res {
+				if re.MatchString(ob.Name) {
+					hit = true
+				}
+			}
+			if !hit {
+				return false
+			}
 		}
 		if m, ok := funcKinds[ob.Fn]; ok {
 			return m[ob.Kind]
@@ -358,8 +376,10 @@ func cmdCheck(args []string) {
 			"description": v.ob.Desc, "solver": v.ob.Solver, "solver_output": v.ob.Output, "position": v.ob.Pos.String(),
 		}
 		reproduced := false
-		if v.ob.Status == "refuted" && v.ob.Model != "" {
+		if v.ob.Model != "" {
 			rep["model"] = v.ob.Model
+		}
+		if v.ob.Status == "refuted" || v.ob.Status == "unknown" {
 			if drv := findDriver(spec.Replays, v.ob.Name); drv != "" {
 				ok, out := runReplayDriver(*root, *repo, drv, v.ob, path)
 				rep["replay_driver"] = drv
